@@ -12,3 +12,5 @@ Definition for_range {A : Type} (lo hi : Z) (acc : A) (f : Z -> A -> A) : A :=
   for_nat (Z.to_nat (hi - lo)) lo acc f.
 
 Definition Zneb (a b : Z) : bool := negb (Z.eqb a b).
+
+Definition zget (v : list Z) (i : Z) : Z := nth (Z.to_nat i) v 0.
